@@ -552,19 +552,7 @@ func (w *World) provenLE(v ssa.Value, s ssa.Value, at *ssa.BasicBlock, strict bo
 			}
 		}
 	}
-	if ph, ok := v.(*ssa.Phi); ok {
-		for i, e := range ph.Edges {
-			if e == v {
-				continue
-			}
-			pred := ph.Block().Preds[i]
-			if !w.provenLEEdge(e, s, pred, ph.Block(), strict, depth+1) {
-				return false
-			}
-		}
-		return true
-	}
-	// dominating conditions
+	// dominating conditions on v itself (a loop index is a phi tested by the loop condition)
 	fn := at.Parent()
 	kv, vConst := constInt(v)
 	for _, b := range fn.Blocks {
@@ -579,6 +567,18 @@ func (w *World) provenLE(v ssa.Value, s ssa.Value, at *ssa.BasicBlock, strict bo
 		if w.condImpliesLE(ifi.Cond, e == 1, v, vConst, kv, s, strict) {
 			return true
 		}
+	}
+	if ph, ok := v.(*ssa.Phi); ok {
+		for i, e := range ph.Edges {
+			if e == v {
+				continue
+			}
+			pred := ph.Block().Preds[i]
+			if !w.provenLEEdge(e, s, pred, ph.Block(), strict, depth+1) {
+				return false
+			}
+		}
+		return true
 	}
 	return false
 }
